@@ -363,7 +363,14 @@ impl Check for C11 {
                     }
                 }
                 if Tri::from_bool(g_strict) != e_strict {
-                    let sig = explain(&case.env, d, v, Mode::Strict, g_strict).unwrap_or("c11_strict_membership");
+                    // the per-member defect model only applies where the program has an intersection the compiler does
+                    // not merge (a named / interface member, an index signature, or the same key declared differently)
+                    let unmerged = case.used.contains_key("inter_unmerged_or_named");
+                    let sig = match explain(&case.env, d, v, Mode::Strict, g_strict) {
+                        Some("strict_inter_per_member") if !unmerged => "c11_strict_membership",
+                        Some(q) => q,
+                        None => "c11_strict_membership",
+                    };
                     out.mismatch(
                         ctx,
                         sig,
